@@ -259,7 +259,7 @@ pub fn c10_exhaustive(acc: &mut Acc) -> Value {
 pub const META_C17: Meta = Meta {
     id: "C17",
     level: "exploration",
-    rule: "Cases from profile `random`: random() in row entries, let, loop/repeat bounds, while conditions, ite conditions and both arms, nested random(random(k)+2); bounds from {2,3,10,2^31,2^32+1,2^62, variable/device derived >= 2}; resetRandom at top level, inside loops, twice in a row, before any draw; seeds 0, 1, u64::MAX, 2^32-multiples and PRNG values pinned through the verif-hooks seed override. The hook logs every generator call made by random(n) (bound, value), every resetRandom and every context creation. Oracle: (a) each logged draw with bound >= 2 has 0 <= value < bound; (b) accounting by replay - the reference interpreter runs the same program with random(e) defined as `pop the next log entry, its bound must equal my value of e`, the log must be consumed exactly (no draw missing, none left over, none for an unselected ite arm, bounds of loops drawn once), and the rows, device vectors and vars() it then prescribes must equal the observed ones (as if the drawn values were literals); (c) Reset markers coincide with executed resetRandom statements and any two segments (start of run / after a reset) agree in value on the longest common prefix of their bound sequences; (d) a second run with the same seed produces the identical log, and the context seed logged equals the pinned one; (e) declare expressions may draw too, and a share of the cases is run again with the driver answering one checked row in another order - the row is an error item and the draw log must still be consumed exactly by the evaluations the program prescribes. Non-trivial = >= 3 draws and (a resetRandom followed by >= 2 draws, or a draw inside a loop bound / while condition / ite).",
+    rule: "Cases from profile `random`: random() in row entries, let, loop/repeat bounds, while conditions, ite conditions and both arms, nested random(random(k)+2); bounds from {2,3,10,2^31,2^32+1,2^62, variable/device derived >= 2}; resetRandom at top level, inside loops, twice in a row, before any draw; seeds 0, 1, u64::MAX, 2^32-multiples and PRNG values pinned through the verif-hooks seed override. The hook logs every generator call made by random(n) (bound, value), every resetRandom and every context creation. Oracle: (a) each logged draw with bound >= 2 has 0 <= value < bound; (b) accounting by replay - the reference interpreter runs the same program with random(e) defined as `pop the next log entry, its bound must equal my value of e`, the log must be consumed exactly (no draw missing, none left over, none for an unselected ite arm, bounds of loops drawn once), and the rows, device vectors and vars() it then prescribes must equal the observed ones (as if the drawn values were literals); (c) Reset markers coincide with executed resetRandom statements and any two segments (start of run / after a reset) agree in value on the longest common prefix of their bound sequences; (d) a second run with the same seed produces the identical log, and the context seed logged equals the pinned one; (d') a program that reads no outputs and runs without error items produces the identical draw log when iterated through try_iter_static; (e) declare expressions may draw too, and a share of the cases is run again with the driver answering one checked row in another order - the row is an error item and the draw log must still be consumed exactly by the evaluations the program prescribes. Non-trivial = >= 3 draws and (a resetRandom followed by >= 2 draws, or a draw inside a loop bound / while condition / ite).",
     assumptions: &[
         "hook LoggedContext forwards the crate's own range expression and generator call unchanged (it only observes)",
         "`one draw` is read as one generator call (gen_range) per evaluation of random(n)",
@@ -366,6 +366,36 @@ pub fn c17(case_seed: u64, acc: &mut Acc) {
         let log2: Vec<DrawRec> = real2.steps.iter().flat_map(|s| s.draws.iter().copied()).collect();
         if log2 != log {
             f = Some(Finding::new("same-seed-different-draws", format!("first run {:?}\nsecond run {:?}", &log[..log.len().min(12)], &log2[..log2.len().min(12)])));
+        }
+    }
+    // (d') a program that reads no outputs draws the same values, for the same bounds, in the same
+    // order when it is iterated statically (virtual signals that draw included)
+    if f.is_none() && !ran.real.steps.iter().any(|s| matches!(s.item, RealItem::ErrRuntime(_) | RealItem::ErrDriver { .. } | RealItem::Panic(_))) && crate::scope::test_output_reads(&case.program, &case.signals).is_empty() {
+        if let (_, Some(parsed)) = parse(&ran.pr.text) {
+            if let (_, Some(tc)) = bind(parsed, &case.signals) {
+                digital_test_runner::verif_hooks::set_seed_override(Some(case.rng_seed));
+                let _ = digital_test_runner::verif_hooks::take_draw_log();
+                let res = guarded(|| tc.try_iter_static().map(|it| it.take(REAL_STEP_CAP).filter(|i| i.is_ok()).count()).map_err(|e| e.to_string()));
+                digital_test_runner::verif_hooks::set_seed_override(None);
+                let slog: Vec<DrawRec> = conv_draws(digital_test_runner::verif_hooks::take_draw_log()).into_iter().filter(|d| !matches!(d, DrawRec::NewContext(_))).collect();
+                acc.evaluations += 1;
+                match res {
+                    Err(p) => f = Some(Finding::new(p.signature(), format!("static iteration panicked: {p:?}"))),
+                    Ok(Err(_)) => {}
+                    Ok(Ok(_)) => {
+                        let dlog: Vec<DrawRec> = log.iter().copied().filter(|d| !matches!(d, DrawRec::NewContext(_))).collect();
+                        if slog != dlog {
+                            let k = (0..slog.len().min(dlog.len())).find(|&k| slog[k] != dlog[k]).unwrap_or(slog.len().min(dlog.len()));
+                            f = Some(Finding::new(
+                                "static-run-draws-differ",
+                                format!("draw log of try_iter_static has {} events, of the dynamic run {}; first difference at #{k}: {:?} vs {:?}", slog.len(), dlog.len(), slog.get(k), dlog.get(k)),
+                            ));
+                        } else {
+                            acc.event("static_draw_logs_compared", 1);
+                        }
+                    }
+                }
+            }
         }
     }
     if let Some(f) = f {
